@@ -186,7 +186,7 @@ PROPS['C05'] = {
                'request_transaction(t).is_some() <=> t outstanding; cancel sets exactly the two flags of that transaction',
                'StunRequestState::poll: Cancelled iff flags, TimedOut/WaitUntil/SendData per schedule; nothing but (timeout_i, last_send_time) changes',
                'theorem_exactly_once / lemma_not_outstanding_stays: between two completions of an id there is a successful send of it; while not outstanding no transmission, delivery or completion for it occurs'],
-    'bounded': ['StunAgent::poll (for .. in values_mut(): no Verus spec for the BTreeMap iterator) turns a per-request verdict into removal: BX histories to depth bound, step-by-step against the abstract agent'],
+    'bounded': ['StunAgent::poll (for .. in values_mut(): no Verus spec for the BTreeMap iterator) turns a per-request verdict into removal: BX, step by step against the abstract agent - EXHAUSTIVELY for every call history of length <= 4 (quick) / <= 5 (thorough, UDP and TCP) over a 12-operation alphabet (two transactions, polls early/exact/late, three kinds of response, cancel, cancel_retransmissions, configure, set credentials), plus random histories of 3..14 (every 50th: 200) operations over the full alphabet'],
     'trusted': _AGENT_TRUST + _KX_TRUST,
 }
 PROPS['C06'] = {
@@ -198,7 +198,7 @@ PROPS['C06'] = {
     'proved': ['StunRequestState::new: UDP schedule [500,1000,2000,4000,8000,16000] + 8000 ms, TCP [] + 39500 ms',
                'poll: WaitUntil(last_send + schedule[i]) iff now is earlier, state unchanged (so polling early again gives the same t); due => SendData with last_send := now, i := i+1; past last_send + last_timeout after the final transmission => TimedOut; nothing transmitted once send_cancelled',
                'cancel_retransmissions sets exactly send_cancelled of that transaction'],
-    'bounded': ['configure_timeout (iterator map/fold over Duration): BX exhaustive over rto x retransmits 0..=8 x last timeout grid', 'StunAgent::poll minimum over transactions / event at t: BX with 1..3 concurrent transactions'],
+    'bounded': ['configure_timeout (iterator map/fold over Duration): BX exhaustive over rto x retransmits 0..=8 x last timeout grid', 'StunAgent::poll minimum over transactions / event at t (incl. the generic law: after WaitUntil(t) an earlier poll repeats t without an event, a poll at or after t yields one): BX with 1..3 concurrent transactions, exhaustive small-scope histories + random ones'],
     'trusted': _AGENT_TRUST + _KX_TRUST,
 }
 PROPS['C07'] = {
